@@ -1182,3 +1182,25 @@ M("b4-quiet-map-first", "C11", "quiet", "src/convert.rs",
             if output_wire >= first_output_wire {
                 output_gates[output_wire - first_output_wire] = next_wire;
             }""", "behaviour-preserving: table written before the output bookkeeping")
+
+# ---------------------------------------------------------------- C12 K6
+REVERT("revert-const-tables", "C12", "fire K6", "ffb1904", "pre-fix tree: non-usize consts are resolved against tables that are never extended")
+M("k6-external-alias-not-recorded", "C12", "fire K6", "src/compile.rs",
+  """                    const_sizes.insert(const_name.clone(), *const_sizes.get(&identifier).unwrap());
+                }
+                let n = resolve_const_expr_unsigned(&const_def.value, &consts_unsigned);
+                const_sizes.insert(const_name.clone(), n as usize);
+                consts_unsigned.insert(const_name.clone(), n);""",
+  """                    const_sizes.insert(const_name.clone(), *const_sizes.get(&identifier).unwrap());
+                } else {
+                    let n = resolve_const_expr_unsigned(&const_def.value, &consts_unsigned);
+                    const_sizes.insert(const_name.clone(), n as usize);
+                    consts_unsigned.insert(const_name.clone(), n);
+                }""", "seed C12-c: a usize const that aliases an external value is recorded as a size only")
+M("k6-quiet-insert-first", "C12", "quiet", "src/compile.rs",
+  """                let n = resolve_const_expr_unsigned(&const_def.value, &consts_unsigned);
+                const_sizes.insert(const_name.clone(), n as usize);
+                consts_unsigned.insert(const_name.clone(), n);""",
+  """                let n = resolve_const_expr_unsigned(&const_def.value, &consts_unsigned);
+                consts_unsigned.insert(const_name.clone(), n);
+                const_sizes.insert(const_name.clone(), n as usize);""", "behaviour-preserving: order of the two insertions swapped")
